@@ -401,8 +401,124 @@ Proof. intros k a h h' (H1 & H2 & H3). apply Sur_ext; assumption. Qed.
 Lemma ExpInv_same : forall h h', same_ace h' h -> ExpInv h -> ExpInv h'.
 Proof. intros h h' (H1 & H2 & H3). apply ExpInv_ext; assumption. Qed.
 
-Lemma sess_get_same : forall h na, same_ace (fst (sess_get h na)) h.
-Proof. intros h na. unfold sess_get. destruct (alist_get na (sessions h)); repeat split. Qed.
+(* the clock of the environment: [with_clock] changes nothing but [cfg_clock] *)
+Lemma with_clock_local : forall c t, cfg_local (with_clock c t) = cfg_local c. Proof. reflexivity. Qed.
+Lemma with_clock_enr : forall c t, cfg_enr (with_clock c t) = cfg_enr c. Proof. reflexivity. Qed.
+Lemma with_clock_retries : forall c t, cfg_retries (with_clock c t) = cfg_retries c. Proof. reflexivity. Qed.
+Lemma with_clock_timeout : forall c t, cfg_timeout (with_clock c t) = cfg_timeout c. Proof. reflexivity. Qed.
+Lemma with_clock_listen : forall c t, cfg_listen (with_clock c t) = cfg_listen c. Proof. reflexivity. Qed.
+Lemma with_clock_capacity : forall c t, cfg_capacity (with_clock c t) = cfg_capacity c. Proof. reflexivity. Qed.
+Lemma with_clock_session_ttl : forall c t, cfg_session_ttl (with_clock c t) = cfg_session_ttl c. Proof. reflexivity. Qed.
+Lemma with_clock_clock : forall c t, cfg_clock (with_clock c t) = t. Proof. reflexivity. Qed.
+Lemma with_clock_grid : forall c t, cfg_grid (with_clock c t) = cfg_grid c. Proof. reflexivity. Qed.
+Lemma with_clock_fix_d1 : forall c t, fix_d1 (with_clock c t) = fix_d1 c. Proof. reflexivity. Qed.
+Lemma with_clock_fix_d2a : forall c t, fix_d2a (with_clock c t) = fix_d2a c. Proof. reflexivity. Qed.
+Lemma with_clock_fix_d2b : forall c t, fix_d2b (with_clock c t) = fix_d2b c. Proof. reflexivity. Qed.
+Lemma with_clock_fix_d6 : forall c t, fix_d6 (with_clock c t) = fix_d6 c. Proof. reflexivity. Qed.
+Lemma with_clock_idem : forall c t t', with_clock (with_clock c t) t' = with_clock c t'. Proof. reflexivity. Qed.
+Lemma fire_time_with_clock : forall c t d now, fire_time (with_clock c t) d now = fire_time c d now.
+Proof. reflexivity. Qed.
+
+(* sessions: time stamps *)
+Lemma touch_enc : forall se t, s_enc (touch se t) = s_enc se. Proof. reflexivity. Qed.
+Lemma touch_dec : forall se t, s_dec (touch se t) = s_dec se. Proof. reflexivity. Qed.
+Lemma touch_old : forall se t, s_old (touch se t) = s_old se. Proof. reflexivity. Qed.
+Lemma touch_await : forall se t, s_await (touch se t) = s_await se. Proof. reflexivity. Qed.
+Lemma touch_counter : forall se t, s_counter (touch se t) = s_counter se. Proof. reflexivity. Qed.
+Lemma touch_used : forall se t, s_used (touch se t) = t. Proof. reflexivity. Qed.
+Lemma touch_touch : forall se t t', touch (touch se t) t' = touch se t'. Proof. reflexivity. Qed.
+
+(* [sess_get] in its three cases *)
+Lemma sess_get_cases : forall c h na,
+  (alist_get na (sessions h) = None /\ sess_get c h na = (h, None)) \/
+  (exists s0, alist_get na (sessions h) = Some s0 /\ sess_expired c s0 = true /\
+     sess_get c h na = (set_sessions h (alist_remove na (sessions h)), None)) \/
+  (exists s0, alist_get na (sessions h) = Some s0 /\ sess_expired c s0 = false /\
+     sess_get c h na = (set_sessions h (alist_remove na (sessions h) ++ [(na, touch s0 (cfg_clock c))]),
+                        Some (touch s0 (cfg_clock c)))).
+Proof.
+  intros c h na. unfold sess_get. destruct (alist_get na (sessions h)) as [s0|]; [|left; auto].
+  right. destruct (sess_expired c s0) eqn:E; [left|right]; exists s0; auto.
+Qed.
+Lemma sess_get_some_inv : forall c h na h' se, sess_get c h na = (h', Some se) ->
+  exists s0, alist_get na (sessions h) = Some s0 /\ sess_expired c s0 = false /\ se = touch s0 (cfg_clock c) /\
+    h' = set_sessions h (alist_remove na (sessions h) ++ [(na, se)]).
+Proof.
+  intros c h na h' se E. destruct (sess_get_cases c h na) as [[_ X]|[(s0 & _ & _ & X)|(s0 & G & Ex & X)]];
+    rewrite X in E; inversion E; subst. eauto.
+Qed.
+Lemma sess_get_none_inv : forall c h na h', sess_get c h na = (h', None) ->
+  h' = set_sessions h (alist_remove na (sessions h)) /\
+  (alist_get na (sessions h) = None \/ exists s0, alist_get na (sessions h) = Some s0 /\ sess_expired c s0 = true).
+Proof.
+  assert (R : forall {A} k (l : list (naddr * A)), alist_get k l = None -> alist_remove k l = l).
+  { intros A k. induction l as [|[k' v] r IH]; cbn [alist_get alist_remove]; intros H; [reflexivity|].
+    destruct (naddr_eqb k k'); [discriminate|]. rewrite IH by assumption. reflexivity. }
+  intros c h na h' E. destruct (sess_get_cases c h na) as [[G X]|[(s0 & G & Ex & X)|(s0 & _ & _ & X)]];
+    rewrite X in E; [injection E as E1; subst h'|injection E as E1; subst h'|discriminate].
+  - split; [|left; exact G]. rewrite (R _ _ _ G). destruct h; reflexivity.
+  - split; [reflexivity|right; eauto].
+Qed.
+(* [sess_get] changes nothing but the sessions *)
+Lemma sess_get_frame : forall c h na,
+  active (fst (sess_get c h na)) = active h /\ nmap (fst (sess_get c h na)) = nmap h /\
+  pending (fst (sess_get c h na)) = pending h /\ challenges (fst (sess_get c h na)) = challenges h /\
+  expected (fst (sess_get c h na)) = expected h.
+Proof.
+  intros c h na. unfold sess_get. destruct (alist_get na (sessions h)) as [s0|]; [|repeat split].
+  destruct (sess_expired c s0); repeat split.
+Qed.
+Lemma sess_get_same : forall c h na, same_ace (fst (sess_get c h na)) h.
+Proof. intros c h na. destruct (sess_get_frame c h na) as (A & _ & _ & B & C). repeat split; assumption. Qed.
+
+(* [drop_expired] splits the list: the purged keys are those of a prefix *)
+Lemma drop_expired_split : forall c l, exists pre,
+  l = pre ++ snd (drop_expired c l) /\ fst (drop_expired c l) = map fst pre /\
+  Forall (fun x => sess_expired c (snd x) = true) pre.
+Proof.
+  intros c. induction l as [|[na se] r IH]; cbn [drop_expired].
+  - exists []. repeat split. constructor.
+  - destruct (sess_expired c se) eqn:E.
+    + destruct IH as (pre & H1 & H2 & H3). destruct (drop_expired c r) as [ks r'] eqn:D. cbn [fst snd] in *.
+      exists ((na, se) :: pre). cbn [app map fst]. repeat split; [congruence|congruence|].
+      constructor; [exact E|exact H3].
+    + exists []. repeat split. constructor.
+Qed.
+Lemma drop_expired_in : forall c l x, In x (snd (drop_expired c l)) -> In x l.
+Proof.
+  intros c l x H. destruct (drop_expired_split c l) as (pre & H1 & _). rewrite H1. apply in_or_app. auto.
+Qed.
+
+(* [remove_expired_sessions] changes nothing but the sessions and emits at most one event, which
+   is neither a wire output nor about a request *)
+Lemma remove_expired_sessions_hs : forall c s,
+  hs (remove_expired_sessions c s) = set_sessions (hs s) (snd (drop_expired c (sessions (hs s)))).
+Proof.
+  intros c s. unfold remove_expired_sessions.
+  destruct (drop_expired_split c (sessions (hs s))) as (pre & H1 & H2 & _).
+  destruct (drop_expired c (sessions (hs s))) as [ks l]. cbn [fst snd] in *.
+  destruct ks as [|k ks]; [|reflexivity].
+  destruct pre; [|discriminate]. cbn [app] in H1. rewrite <- H1. destruct s as [[] ? ?]; reflexivity.
+Qed.
+Lemma remove_expired_sessions_dr : forall c s, dr (remove_expired_sessions c s) = dr s.
+Proof.
+  intros c s. unfold remove_expired_sessions. destruct (drop_expired c (sessions (hs s))) as [[|k ks] l]; reflexivity.
+Qed.
+Lemma remove_expired_sessions_outs : forall c s,
+  outs (remove_expired_sessions c s) = outs s \/
+  exists ks, outs (remove_expired_sessions c s) = outs s ++ [OEvent (HExpiredSessions ks)].
+Proof.
+  intros c s. unfold remove_expired_sessions. destruct (drop_expired c (sessions (hs s))) as [[|k ks] l]; [left; reflexivity|].
+  right. eexists. reflexivity.
+Qed.
+Lemma remove_expired_sessions_frame : forall c s,
+  active (hs (remove_expired_sessions c s)) = active (hs s) /\ nmap (hs (remove_expired_sessions c s)) = nmap (hs s) /\
+  pending (hs (remove_expired_sessions c s)) = pending (hs s) /\
+  challenges (hs (remove_expired_sessions c s)) = challenges (hs s) /\
+  expected (hs (remove_expired_sessions c s)) = expected (hs s).
+Proof. intros c s. rewrite remove_expired_sessions_hs. repeat split. Qed.
+Lemma remove_expired_sessions_same : forall c s, same_ace (hs (remove_expired_sessions c s)) (hs s).
+Proof. intros c s. rewrite remove_expired_sessions_hs. repeat split. Qed.
 Lemma sess_put_same : forall h na se, same_ace (sess_put h na se) h.
 Proof. repeat split. Qed.
 Lemma sess_insert_same : forall c h na se, same_ace (sess_insert c h na se) h.
@@ -419,10 +535,10 @@ Proof.
   intros c s na se m. unfold encrypt_message. destruct (pop_pk (dr s)) as [[[[x1 x2] x3] x4] d']. reflexivity.
 Qed.
 
-Lemma is_awaiting_session_same : forall s na, same_ace (hs (fst (is_awaiting_session s na))) (hs s).
+Lemma is_awaiting_session_same : forall c s na, same_ace (hs (fst (is_awaiting_session c s na))) (hs s).
 Proof.
-  intros s na. unfold is_awaiting_session. pose proof (sess_get_same (hs s) na) as H.
-  destruct (sess_get (hs s) na) as [h se]. cbn [fst] in H. destruct se; exact H.
+  intros c s na. unfold is_awaiting_session. pose proof (sess_get_same c (hs s) na) as H.
+  destruct (sess_get c (hs s) na) as [h se]. cbn [fst] in H. destruct se; exact H.
 Qed.
 
 (* primitive transformers *)
@@ -480,15 +596,15 @@ Proof.
   intros c s ct ext rid body now H. unfold send_request.
   destruct (existsb (N.eqb (c_addr ct)) (cfg_listen c)); [exact H|].
   assert (H1 : same_ace (hs (fst (if has_challenge (hs s) (c_naddr ct) then (s, true)
-                                    else is_awaiting_session s (c_naddr ct)))) (hs s)).
+                                    else is_awaiting_session c s (c_naddr ct)))) (hs s)).
   { destruct (has_challenge (hs s) (c_naddr ct)); [apply same_ace_refl | apply is_awaiting_session_same]. }
-  destruct (if has_challenge (hs s) (c_naddr ct) then (s, true) else is_awaiting_session s (c_naddr ct))
+  destruct (if has_challenge (hs s) (c_naddr ct) then (s, true) else is_awaiting_session c s (c_naddr ct))
     as [s1 aw]. cbn [fst] in H1.
   destruct aw; cbn [fst].
   - cbn [with_hs hs]. eapply ExpInv_same; [|exact H].
     eapply same_ace_trans; [apply push_pending_same | exact H1].
-  - pose proof (sess_get_same (hs s1) (c_naddr ct)) as H2.
-    destruct (sess_get (hs s1) (c_naddr ct)) as [h2 se]. cbn [fst] in H2.
+  - pose proof (sess_get_same c (hs s1) (c_naddr ct)) as H2.
+    destruct (sess_get c (hs s1) (c_naddr ct)) as [h2 se]. cbn [fst] in H2.
     assert (H3 : ExpInv h2). { eapply ExpInv_same; [|exact H]. eapply same_ace_trans; eauto. }
     destruct se as [se|].
     + pose proof (encrypt_message_hs c (with_hs s1 h2) (c_naddr ct) se (MReq rid body)) as H4.
@@ -546,9 +662,10 @@ Lemma fail_session_inv : forall c s na err rm,
   ExpInv (hs s) -> ExpInv (hs (fail_session c s na err rm)).
 Proof.
   intros c s na err rm H. unfold fail_session.
-  set (s1 := if rm then with_hs s (sess_remove (hs s) na) else s).
+  set (s1 := if rm then let s0 := remove_expired_sessions c s in with_hs s0 (sess_remove (hs s0) na) else s).
   assert (H1 : ExpInv (hs s1)).
-  { subst s1. destruct rm; [|exact H]. cbn [with_hs hs]. eapply ExpInv_same; [apply sess_remove_same|exact H]. }
+  { subst s1. destruct rm; [|exact H]. cbn [with_hs hs]. eapply ExpInv_same; [apply sess_remove_same|].
+    eapply ExpInv_same; [apply remove_expired_sessions_same|exact H]. }
   clearbody s1.
   set (s2 := match alist_get na (pending (hs s1)) with Some l => _ | None => s1 end).
   assert (H2 : ExpInv (hs s2)).
@@ -632,8 +749,9 @@ Lemma replay_active_requests_inv : forall c s na skip now,
   ExpInv (hs s) -> ExpInv (hs (replay_active_requests c s na skip now)).
 Proof.
   intros c s na skip now H. unfold replay_active_requests.
-  pose proof (sess_get_same (hs s) na) as H1.
-  destruct (sess_get (hs s) na) as [h1 se]. cbn [fst] in H1. destruct se as [se0|]; [|exact H].
+  pose proof (sess_get_same c (hs s) na) as H1.
+  destruct (sess_get c (hs s) na) as [h1 se]. cbn [fst] in H1.
+  destruct se as [se0|]; [|cbn [with_hs hs]; eapply ExpInv_same; eauto].
   match goal with |- context [fold_left ?f ?l (with_hs s h1, se0, [])] =>
     assert (X : hs (fst (fst (fold_left f l (with_hs s h1, se0, [])))) = h1) end.
   { apply (fold_left_inv (fun acc : st * session * list (nonce * packet) => hs (fst (fst acc)) = h1)).
@@ -656,8 +774,11 @@ Lemma new_session_inv : forall c s na se skip now,
   ExpInv (hs s) -> ExpInv (hs (new_session c s na se skip now)).
 Proof.
   intros c s na se skip now H. unfold new_session.
-  pose proof (sess_get_same (hs s) na) as H1.
-  destruct (sess_get (hs s) na) as [h1 cur]. cbn [fst] in H1.
+  assert (H0 : ExpInv (hs (remove_expired_sessions c s))).
+  { eapply ExpInv_same; [apply remove_expired_sessions_same|exact H]. }
+  clear H. revert H0. generalize (remove_expired_sessions c s). clear s. intros s H.
+  pose proof (sess_get_same c (hs s) na) as H1.
+  destruct (sess_get c (hs s) na) as [h1 cur]. cbn [fst] in H1.
   assert (H2 : ExpInv h1) by (eapply ExpInv_same; eauto).
   destruct cur as [cs|].
   - match goal with |- context [replay_active_requests c ?s1 na skip now] =>
@@ -679,8 +800,9 @@ Qed.
 Lemma send_response_inv : forall c s na rid rb, ExpInv (hs s) -> ExpInv (hs (send_response c s na rid rb)).
 Proof.
   intros c s na rid rb H. unfold send_response.
-  pose proof (sess_get_same (hs s) na) as H1.
-  destruct (sess_get (hs s) na) as [h1 se]. cbn [fst] in H1. destruct se as [se|]; [|exact H].
+  pose proof (sess_get_same c (hs s) na) as H1.
+  destruct (sess_get c (hs s) na) as [h1 se]. cbn [fst] in H1.
+  destruct se as [se|]; [|cbn [with_hs hs]; eapply ExpInv_same; eauto].
   pose proof (encrypt_message_hs c (with_hs s h1) na se (MResp rid rb)) as Y.
   destruct (encrypt_message c (with_hs s h1) na se (MResp rid rb)) as [[s2 se'] p].
   cbn [fst with_hs hs] in Y. cbn [send emit with_hs hs].
@@ -750,8 +872,9 @@ Lemma handle_message_inv : forall c s na n aad ct now,
   ExpInv (hs s) -> ExpInv (hs (handle_message c s na n aad ct now)).
 Proof.
   intros c s na n aad ct now H. unfold handle_message.
-  pose proof (sess_get_same (hs s) na) as H1.
-  destruct (sess_get (hs s) na) as [h1 se]. cbn [fst] in H1. destruct se as [se|]; [|exact H].
+  pose proof (sess_get_same c (hs s) na) as H1.
+  destruct (sess_get c (hs s) na) as [h1 se]. cbn [fst] in H1.
+  destruct se as [se|]; [|cbn [emit with_hs hs]; eapply ExpInv_same; eauto].
   destruct (decrypt_message se n aad ct) as [se' m].
   set (s2 := with_hs (with_hs s h1) (sess_put (hs (with_hs s h1)) na se')).
   assert (H2 : ExpInv (hs s2)).
@@ -767,7 +890,7 @@ Proof.
     { subst s3.
       assert (H3 : ExpInv (hs (with_hs s2 (sess_put (hs s2) na
                    {| s_enc := s_enc se'; s_dec := s_dec se'; s_old := s_old se'; s_await := None;
-                      s_counter := s_counter se' |})))).
+                      s_counter := s_counter se'; s_used := s_used se' |})))).
       { cbn [with_hs hs]. eapply ExpInv_same; [apply sess_put_same|exact H2]. }
       destruct (fix_d2b c); [|exact H3].
       match goal with |- context [ar_remove_request ?h na rid] =>
@@ -856,7 +979,7 @@ Proof.
   destruct (N.eqb (snd na) src) eqn:Esrc; cbn [negb].
   2:{ cbn [with_hs hs]. apply (Sur0_iff (snd na)). apply Sur_ar_insert; assumption. }
   apply N.eqb_eq in Esrc. subst src.
-  destruct (rc_hs_sent r).
+  destruct (rc_hs_sent r || c_ed (rc_contact r)).
   { rewrite D6. apply fail_request_inv. apply (Sur0_iff (snd na)). apply Sur_remove_expected. exact H1. }
   destruct (pop_pk (dr (with_hs s h1))) as [[[[cn rr] aad] eph] d'].
   unfold req_ok in Hok. rewrite Hok. cbn [with_hs hs].
@@ -922,14 +1045,14 @@ Proof.
   assert (FR : forall d, ExpInv (hs (match group_of d (nmap (hs s)) with
       | _ :: _ :: _ =>
         let (rev_order, d') := pop_rev (dr s) in
-        fire_group c {| hs := hs s; dr := d'; outs := outs s |}
+        fire_group (with_clock c (fire_time c d now)) {| hs := hs s; dr := d'; outs := outs s |}
           (if rev_order then rev (group_of d (nmap (hs s))) else group_of d (nmap (hs s))) d (fire_time c d now)
-      | _ => fire_group c s (group_of d (nmap (hs s))) d (fire_time c d now)
+      | _ => fire_group (with_clock c (fire_time c d now)) s (group_of d (nmap (hs s))) d (fire_time c d now)
       end))).
   { intros d. destruct (group_of d (nmap (hs s))) as [|x [|y g]]; try (apply fire_group_inv; exact H).
     destruct (pop_rev (dr s)) as [ro d']. apply fire_group_inv. exact H. }
   assert (FC : forall cna cc cd, min_deadline_ch (challenges (hs s)) None = Some (cna, cc, cd) ->
-    ExpInv (hs (fire_challenge c s cna (fire_time c cd now)))).
+    ExpInv (hs (fire_challenge (with_clock c (fire_time c cd now)) s cna (fire_time c cd now)))).
   { intros cna cc cd E. apply fire_challenge_inv; [|exact H].
     apply min_deadline_ch_in in E. destruct E as [E|E]; [|discriminate]. eapply chall_get_in; eauto. }
   destruct (min_deadline_nmap (nmap (hs s)) None) as [[[rn ra] rd]|];
@@ -957,18 +1080,23 @@ Definition step_event (c : config) (s0 : st) (e : event) (now : N) : st :=
     | PMsg src n aad ct => handle_message c s0 (src, from) n aad ct now
     end
   end.
+(* [step] runs under the clock [now] *)
 Lemma step_unfold : forall c h e now d,
   step c h e now d =
-  (hs (step_event c (fire_due c {| hs := h; dr := d; outs := [] |} now TICK_FUEL) e now),
-   outs (step_event c (fire_due c {| hs := h; dr := d; outs := [] |} now TICK_FUEL) e now)).
+  (hs (step_event (with_clock c now) (fire_due (with_clock c now) {| hs := h; dr := d; outs := [] |} now TICK_FUEL) e now),
+   outs (step_event (with_clock c now) (fire_due (with_clock c now) {| hs := h; dr := d; outs := [] |} now TICK_FUEL) e now)).
 Proof. reflexivity. Qed.
 
 Definition fixed_cfg (c : config) : Prop :=
   fix_d1 c = true /\ fix_d2a c = true /\ fix_d2b c = true /\ fix_d6 c = true.
+Lemma fixed_cfg_with_clock : forall c t, fixed_cfg (with_clock c t) <-> fixed_cfg c.
+Proof. intros c t. unfold fixed_cfg. cbn [with_clock fix_d1 fix_d2a fix_d2b fix_d6]. tauto. Qed.
 
 Lemma step_inv_d6 : forall c h e now d, fix_d6 c = true -> ExpInv h -> ExpInv (fst (step c h e now d)).
 Proof.
-  intros c h e now d D6 H. unfold step. cbn [fst].
+  intros c0 h e now d D6 H. unfold step. cbv zeta. cbn [fst].
+  assert (D6' : fix_d6 (with_clock c0 now) = true) by exact D6.
+  clear D6. revert D6'. generalize (with_clock c0 now). intros c D6.
   assert (H0 : ExpInv (hs (fire_due c {| hs := h; dr := d; outs := [] |} now TICK_FUEL))).
   { apply fire_due_inv. exact H. }
   set (s0 := fire_due c {| hs := h; dr := d; outs := [] |} now TICK_FUEL) in *. clearbody s0.
@@ -1027,9 +1155,9 @@ Local Open Scope N_scope.
 Definition ex_enr (i a : N) : enr := {| e_id := i; e_seq := 1; e_ip4 := Some a; e_ip6 := None |}.
 Definition ex_cfg (fixes : bool) : config :=
   {| cfg_local := 1; cfg_enr := ex_enr 1 10; cfg_retries := 2; cfg_timeout := 1000; cfg_listen := [10%N];
-     cfg_capacity := 8%nat; cfg_grid := 0;
+     cfg_capacity := 8%nat; cfg_session_ttl := 1000000; cfg_clock := 0; cfg_grid := 0;
      fix_d1 := fixes; fix_d2a := fixes; fix_d2b := fixes; fix_d6 := fixes |}.
-Definition ex_peer : contact := {| c_id := 2; c_addr := 20; c_enr := Some (ex_enr 2 20) |}.
+Definition ex_peer : contact := {| c_id := 2; c_addr := 20; c_enr := Some (ex_enr 2 20); c_ed := false |}.
 Definition ex_draws (x : N) : draws := {| d_pk := [(x, x + 1, x + 2, x + 3)%N]; d_rid := []; d_rev := [] |}.
 
 Lemma ex_cfg_fixed : fixed_cfg (ex_cfg true).
